@@ -5,6 +5,7 @@ package spynode
 import (
 	"fmt"
 	"math/rand"
+	"strings"
 	"testing"
 
 	"github.com/tokenized/pkg/bitcoin"
@@ -26,6 +27,10 @@ func c10Scenario(r *rand.Rand, long int) c01Scenario {
 		// the file rolls over on the header-only (pre-start) path
 		sc.Initial = 1003 + r.Intn(3)
 		sc.Start = sc.Initial - r.Intn(2)
+	} else if long == 3 {
+		// the start block is not mined yet: the node stores headers only, and reorganises them
+		sc.Initial = 5 + r.Intn(8)
+		sc.Start = sc.Initial + 6 + r.Intn(3)
 	} else {
 		sc.Initial = 4 + r.Intn(10)
 		sc.Start = 1 + r.Intn(sc.Initial)
@@ -33,6 +38,9 @@ func c10Scenario(r *rand.Rand, long int) c01Scenario {
 	sc.Pol = simPolicy{fairness: 1 + r.Intn(6), procPct: []int{0, 50}[r.Intn(2)], permute: r.Intn(2) == 0}
 	sc.PolDesc = fmt.Sprintf("fairness=%d procPct=%d permute=%v", sc.Pol.fairness, sc.Pol.procPct, sc.Pol.permute)
 	sc.Steps = []c01Step{{Op: "settle"}}
+	if long == 3 {
+		sc.Steps = append(sc.Steps, c01Step{Op: "reorg", D: 1 + r.Intn(3), N: 1 + r.Intn(2)}, c01Step{Op: "settle"})
+	}
 	if long == 1 && sc.Initial > 1000 && sc.Initial < 1010 {
 		// a reorg whose fork point lies in the previous header file
 		d := sc.Initial - 1000 + 1 + r.Intn(3)
@@ -103,7 +111,7 @@ func c10CheckImage(img *verifkit.Store, tree *verifkit.Tree, tip *verifkit.Block
 
 func TestVerif_C10(t *testing.T) {
 	rep := verifkit.NewReport("C10")
-	rep.Rule = "scenarios (DS engine, recorded by the storage wrapper): initial sync (short, and 998/1001/2001 blocks so that header files roll over), extensions in sync, reorgs of depth 1-6 (in sync, during sync, across a file boundary), clean restarts, shutdown saves. Crash points: for EVERY prefix i of the scenario's storage mutation log the image is rebuilt and a fresh node must load a hash-linked chain whose every header belongs to one branch of the peer's tree, and (every 5th i in the quick tier, all in thorough) converge to the peer's best chain. Faults: for EVERY j the j-th storage operation (read, write or delete) of the same deterministic scenario fails once; afterwards the in-memory chain must pass the C02 probe, or a fresh node on the surviving storage must load and converge. exhaustive=true refers to all i and all j per scenario (capped at 600 per scenario; the scenario set is sampled). Non-trivial = every (scenario, crash point / fault) pair; distinct by (scenario, i or j)"
+	rep.Rule = "scenarios (DS engine, recorded by the storage wrapper): initial sync (short, and 998/1001/2001 blocks so that header files roll over), extensions in sync, reorgs of depth 1-6 (in sync, during sync, across a file boundary, among headers stored before the start block exists), clean restarts, shutdown saves. Crash points: for EVERY prefix i of the scenario's storage mutation log the image is rebuilt and a fresh node must load a hash-linked chain whose every header belongs to one branch of the peer's tree, and (every 5th i in the quick tier, all in thorough) converge to the peer's best chain. Faults: for EVERY j the j-th storage operation (read, write or delete) of the same deterministic scenario fails once; from that moment on the in-memory chain must pass the structural C02 probe after every scheduling step, or a fresh node on the surviving storage must load and converge. exhaustive=true refers to all i and all j per scenario (capped at 600 per scenario; the scenario set is sampled). Non-trivial = every (scenario, crash point / fault) pair; distinct by (scenario, i or j)"
 	rep.Assumptions = []string{"the DS engine is deterministic for a fixed seed, so operation j is the same operation in every replay", "verifkit.Store images are exact states after mutation i (copy-on-write)", "a storage fault is a returned error; torn writes are not modelled"}
 	defer rep.Write()
 	nsc := verifkit.N(6, 60)
@@ -117,6 +125,8 @@ func TestVerif_C10(t *testing.T) {
 			long = 1
 		} else if ci%6 == 5 {
 			long = 2
+		} else if ci%6 == 3 {
+			long = 3
 		}
 		sc := c10Scenario(rand.New(rand.NewSource(seed)), long)
 		run := func(failAt int) (*dsSim, *verifkit.Store, bitcoin.Hash32, error) {
@@ -130,6 +140,10 @@ func TestVerif_C10(t *testing.T) {
 					if failAt >= 0 {
 						store.FailAt(failAt)
 					}
+				}
+				if failAt >= 0 {
+					// from the moment the fault fired the in-memory chain is probed after every step
+					s.probeIf = store.FaultFired
 				}
 			})
 			return s, store, startHash, err
@@ -191,8 +205,19 @@ func TestVerif_C10(t *testing.T) {
 				js = append(js, j)
 			}
 		}
+		hangs := 0
 		for _, j := range js {
-			s, store, _, err := run(j)
+			var s *dsSim
+			var store *verifkit.Store
+			var err error
+			if hangs >= 2 {
+				break
+			}
+			if hung := verifkit.Guarded(func() { s, store, _, err = run(j) }); hung != "" {
+				hangs++
+				rep.Finding(ci, "C10/fault/hang", fmt.Sprintf("with storage operation %d failing once the node code never returns (%s) | %s", j, hung, desc), map[string]interface{}{"scenario": sc, "failed_operation": j})
+				continue
+			}
 			if err != nil {
 				// the very first load failed because of the fault: a restart on the surviving
 				// storage must work
@@ -215,15 +240,26 @@ func TestVerif_C10(t *testing.T) {
 					failed = fmt.Sprintf("%s %s", op.Kind, op.Key)
 				}
 			}
-			// (a) consistent chain in memory
+			// (a) consistent chain in memory: probed after every step since the fault fired, and
+			// once more at the end
+			var during []simFinding
+			for _, f := range s.finds {
+				// the stored chain only: what the handlers were told is not the subject of C10
+				if f.prop == "C02" && !strings.HasPrefix(f.sig, "C02/callback-") {
+					during = append(during, f)
+				}
+			}
 			s.finds = nil
 			s.pol.probeEvery = true
 			s.probeChain("after-fault")
-			memOK := true
+			memOK := len(during) == 0
 			for _, f := range s.finds {
 				if f.prop == "C02" {
 					memOK = false
 				}
+			}
+			if len(during) > 0 {
+				s.finds = append(during, s.finds...)
 			}
 			if memOK {
 				rep.Event("faults_memory_consistent", 1)
